@@ -6,7 +6,7 @@ CONSTANTS
   CompSeqs <- QCompSeqs
   ClientForms <- QForms
   ClientCodecs <- QCodecs
-  ClientComps <- QComps
+  ClientComps <- MComps
   Methods <- QMethods
   MaxMsgs = 2
   EndCodes <- OkOnly
